@@ -416,6 +416,11 @@ class Exec:
         if isinstance(op, (ast.In, ast.NotIn)):
             if isinstance(r, PyDict): res = st.heap.dhas[r.addr][to_val(l)]
             elif hasattr(r, 'contains'): res = r.contains(st, to_val(l))
+            elif isinstance(r, PyCallable) or (is_expr(r) and r.sort() == Val):
+                # membership in a container the contracts do not describe (a module-level cache, an opaque bookkeeping object): its contents depend on
+                # history, so the test has both outcomes; the path is marked as an approximation (a refutation that needs one outcome is UNDECIDED)
+                if st is not None: approx(st, f"membership test on a container without a contract ({getattr(r, 'name', None) or r}): unconstrained boolean")
+                res = fresh('in_unknown_container', BoolSort())
             else: raise Unsupported("'in' on " + repr(r))
             return res if isinstance(op, ast.In) else Not(res)
         raise Unsupported("comparison operator")
@@ -437,6 +442,9 @@ class Exec:
                 return k(st2, base.items[idx])
             if is_expr(base) and base.sort() == Val and not isinstance(idx, (PyTuple, PyCallable)):          # an object the contracts say nothing about: read through the dict view of its address
                 return k(st2, st2.heap.dval[Val.a(base)][to_val(idx)])
+            if isinstance(base, PyCallable) and '.' not in base.name and not base.name[:1].islower():
+                # READ from a module-level container without a contract (an ALL-CAPS cache): an unconstrained value, path marked as approximation
+                approx(st2, f"read from the module-level container {base.name} (no contract): unconstrained value"); return k(st2, fresh('read_' + base.name))
             raise Unsupported("subscript on " + repr(base))
         return self.ev_list([e.value, e.slice], st, got, K)
     def ev_Await(self, e, st, k, K):
@@ -630,6 +638,9 @@ class Exec:
                     # bookkeeping object without a contract (a counter dict, a cache): the store goes to the dict view of its address; nothing says that address
                     # differs from the collections the contracts talk about: the store is assumed not to alias them (frame), and the path is marked as approximation
                     approx(st2, "store through " + ast.unparse(tgt) + ": an object without a contract, assumed not to alias any collection the contracts talk about (no effect on the modelled heap)")
+                elif isinstance(base, PyCallable) and '.' not in base.name and not base.name[:1].islower():
+                    # store into a module-level container without a contract (an ALL-CAPS cache): reads from it are unconstrained anyway; no effect on the modelled heap
+                    approx(st2, "store into the module-level container " + base.name + " (no contract; assumed not to alias any collection the contracts talk about)")
                 else: raise Unsupported("store through subscript on " + repr(base))
                 return k(st2)
             return self.ev_list([tgt.value, tgt.slice], st, got, K)
